@@ -167,6 +167,7 @@ func (l *Loaded) verifyFunc(r *Runner, fn *ssa.Function, sp *FuncSpec) (res *FnR
 	r.paths = 1
 	r.work = nil
 	r.obligs = nil
+	r.histSigs = callSigsOf(fn)
 	defer func() {
 		res.Paths = r.paths
 		if e := recover(); e != nil {
@@ -622,4 +623,32 @@ func specMentions(sp *FuncSpec, what string) bool {
 		}
 	}
 	return false
+}
+
+// callSigsOf maps the call-history name of every call instruction of fn (and of its anonymous
+// functions) to the callee's signature.
+func callSigsOf(fn *ssa.Function) map[string]*types.Signature {
+	out := map[string]*types.Signature{}
+	var walk func(f *ssa.Function)
+	walk = func(f *ssa.Function) {
+		for _, b := range f.Blocks {
+			for _, in := range b.Instrs {
+				ci, ok := in.(ssa.CallInstruction)
+				if !ok {
+					continue
+				}
+				c := ci.Common()
+				if c.IsInvoke() {
+					out[calleeShort("("+typeKey(c.Value.Type())+")."+c.Method.Name())] = c.Signature()
+				} else if sc := c.StaticCallee(); sc != nil {
+					out[calleeShort(sc.String())] = c.Signature()
+				}
+			}
+		}
+		for _, a := range f.AnonFuncs {
+			walk(a)
+		}
+	}
+	walk(fn)
+	return out
 }
